@@ -3,8 +3,15 @@ import LazeModel
 /-! JSON helpers shared by the line-protocol driver. -/
 open Lean Laze
 
-def jstr (j : Json) (k : String) : String := (j.getObjValAs? String k).toOption.getD ""
-def jopt (j : Json) (k : String) : Option String := (j.getObjValAs? String k).toOption
+/-- a YAML plain scalar read as a string: serde_yaml hands `1` / `true` to a `String` field as their text -/
+def scalarStr? : Json → Option String
+  | .str s => some s
+  | .num n => some (toString n)
+  | .bool b => some (if b then "true" else "false")
+  | _ => none
+def jopt (j : Json) (k : String) : Option String :=
+  match j.getObjVal? k with | .ok v => scalarStr? v | _ => none
+def jstr (j : Json) (k : String) : String := (jopt j k).getD ""
 def jbool (j : Json) (k : String) : Bool := (j.getObjValAs? Bool k).toOption.getD false
 def jboolD (j : Json) (k : String) (d : Bool) : Bool := (j.getObjValAs? Bool k).toOption.getD d
 def jnat (j : Json) (k : String) : Nat := (j.getObjValAs? Nat k).toOption.getD 0
